@@ -10,6 +10,8 @@ package checkgroup
 
 //@ spec resinv(r Result) bool = r.Err != nil ==> r.Membership != IsMember
 //@ chaninv checkgroup.Result: msg.Err != nil ==> msg.Membership != checkgroup.IsMember
+// ... and the type invariant of every Result kept in memory (slice elements, struct fields)
+//@ typeinv checkgroup.Result: val.Err != nil ==> val.Membership != IsMember
 //@ fieldinv checkgroup.concurrentCheckgroup.result: val.Err != nil ==> val.Membership != checkgroup.IsMember
 
 //@ globalinv checkgroup.ResultNotMember: val.Membership == NotMember && val.Err == nil
